@@ -167,7 +167,7 @@ Proof. intros h r l rsv r' Hok Hnm H. unfold dec_schm in H. run H.
   - inj_pret H. cbn [leaf_size_guard]. eq4.
 Qed.
 Lemma psized_hdlr : psized dec_hdlr.
-Proof. intros h r l rsv r' Hok Hnm H. unfold dec_hdlr in H. run H; inj_pret H; cbn [leaf_size_guard]; eq4. Qed.
+Proof. intros h r l rsv r' Hok Hnm H. unfold dec_hdlr in H. run H; inj_pret H; reflexivity. Qed.   (* no guard since repo commit 3502d85 *)
 Lemma psized_audio : psized dec_audio.
 Proof. intros h r l rsv r' Hok Hnm H. unfold dec_audio in H. run H. inj_pret H. cbn [leaf_size_guard]. eq4. Qed.
 Lemma psized_visual : psized dec_visual.
@@ -453,8 +453,10 @@ Proof.
   cbn [leaf_size_guard leaf_guard size_leaf leaf_large] in *. apply N.eqb_eq.
   apply N.ltb_ge in Hc, Hc1. unfold payload_len in *.
   destruct ((a0 =? 0) || (lenN a1 =? 0)) eqn:E; cbn [negb] in *.
-  - cbn [orb] in G. apply N.eqb_eq in G. lia.
-  - lia.
+  - destruct (senc_keeps false a0 (h_size h - h_len h + 8)) eqn:K; cbn [orb] in G.
+    + lia.
+    + apply N.eqb_eq in G. lia.
+  - unfold senc_keeps. cbn [orb]. lia.
 Qed.
 
 (* ---------------------------------------------------------------- mdat *)
@@ -730,9 +732,11 @@ Proof.
     unfold dec_senc in E. cbn [h_size h_len payload_len] in E. unfold payload_len in E. cbn [h_size h_len] in E. run E. inj_pret E.
     cbn [leaf_size_guard leaf_guard size_leaf leaf_large] in *. apply N.eqb_eq.
     apply N.ltb_ge in Hc, Hc1, E16.
-    destruct ((count =? 0) || (lenN raw =? 0)) eqn:Ez; cbn [negb orb] in *.
-    - apply N.eqb_eq in G. lia.
-    - lia. }
+    destruct ((count =? 0) || (lenN raw =? 0)) eqn:Ez; cbn [negb] in *.
+    - destruct (senc_keeps false count (h_size h - 16 - 8 + 8)) eqn:K; cbn [orb] in G.
+      + lia.
+      + apply N.eqb_eq in G. lia.
+    - unfold senc_keeps. cbn [orb]. lia. }
   destruct (h_size h <? 24); [discriminate H|]. run H. inj_pret H. cbn [leaf_size_guard]. apply N.eqb_eq. assumption.
 Qed.
 
